@@ -44,7 +44,7 @@ Theorem C01_init :
   forall se rho w ctr,
     (forall k, sload_of (w_storage w) (se_this se) k = 0) ->
     (forall k, sload_of (w_transient w) (se_this se) k = 0) ->
-    (forall a, get_balance w a = rho (VBal a)) ->
+    (forall a, get_balance w a = eval rho (sbal se a)) ->
     R se rho init_sstate (init_state w ctr).
 Proof. exact R_init. Qed.
 Print Assumptions C01_init.
@@ -67,7 +67,7 @@ Definition badjump_code : list Z := [96; 4; 53; 96; 119; 87; 0].
 Definition badjump_se : senv :=
   mkSEnv 1 badjump_code (TVar VCaller) (TVar VOrigin) (TVar VValue)
          (map (fun j => (Nat.modulo j 32, TVar (VArg (Nat.div j 32)))) (seq 0 64)) false 1
-         (mkBlock 0 31337 0 0 0 1 1).
+         (mkBlock 0 31337 0 0 0 1 1) [].
 Definition always_unknown (p : list cond) (c : term) (b : bool) : Z := R_UNKNOWN.
 
 Theorem C01_badjump_refuted :
@@ -85,7 +85,7 @@ Definition demo_code : list Z := [96; 4; 53; 96; 9; 87; 96; 7; 0; 91; 96; 1; 95;
 Definition demo_se : senv :=
   mkSEnv 1 demo_code (TVar VCaller) (TVar VOrigin) (TVar VValue)
          (map (fun j => (Nat.modulo j 32, TVar (VArg (Nat.div j 32)))) (seq 0 64)) false 1
-         (mkBlock 0 31337 0 0 0 1 1).
+         (mkBlock 0 31337 0 0 0 1 1) [].
 Example C01_nonvacuous :
   length (fst (sexec 1048576 demo_se always_unknown 2 20 init_sstate)) = 2%nat /\
   snd (sexec 1048576 demo_se always_unknown 2 20 init_sstate) = false /\
